@@ -19,6 +19,7 @@ LEVEL_NOTE = ("Not decided: the 'only if' direction (that every rule-abiding fil
               "code itself marks FIXME (quantifier of calls and scoped reads).")
 LEVEL_TEXT += (" Also: (B) every nested block is checked under its own nested variable map; (C) CheckContext holds no interior mutability; (P) used captures of every child result are merged into the returned set; (E5.var/E2.d) the scope maps refuse duplicates and no VariableError is dropped or replaced on the way to a CheckError; (E3.x) the checker's capture lookups use the stanza query's index space.")
 LEVEL_TEXT += (' (E3.l must-pass) for every source the lazy interpreter evaluates eagerly, no path of the checker from checking that source to a successful return avoids the `is_local` test; loop variable and loop body / comprehension element are checked in one scope; (E5.mut) the checker records `let` as immutable and `var` as mutable.')
+LEVEL_TEXT += (" (C10.null) every scan arm passes the nullable-regex test on every round of the arm loop; the loop variable of for/comprehensions is registered with the iterated value's own checker facts.")
 
 CONJ = r"^phi\(\(rec BitAnd \(Try::branch\(checker::check\(&\*\(Iterator::next\(&IntoIterator::into_iter\(&\*arg:self\.%s\)\) as Some\)\.0, &\*arg:ctx\)\) as Continue\)\.0\.is_local\) \| true\)$"
 ELEMENT = r"^\(Try::branch\(checker::check\(&\*cast\(\*arg:self\.element\), &checker::CheckContext::CheckContext\{.*VariableMap::nested\(cast\(&\*\*arg:ctx\.locals\)\)\)\}\)\) as Continue\)\.0\.is_local$"
@@ -325,9 +326,13 @@ def run(prog, rep):
                   "the iteration source's quantifier is not tested against exactly {ZeroOrMore, OneOrMore} (tested: %s)" % sorted(qs))
         # sibling sequence: value check, nested context, check_add(variable, .., false)
         ca = [(b, t) for b, t in body.calls() if is_callee(t, r"<impl tsg::ast::UnscopedVariable>::check_add$")]
+        # what the loop variable is registered as: the checker facts of the iterated value itself (its quantifier decides whether
+        # the variable can be iterated in turn), converted — never a made-up result
+        vfacts = canon(strip(tr.operand(ca[0][1]["args"][2]))) if ca else ""
+        vfacts_ok = re.match(r"^Into::into\(\(Try::branch\(checker::check\(&\*?(cast\()?\*?arg:self\.value\)?, &\*arg:ctx\)\) as Continue\)\.0\)$", vfacts) is not None
         seq[ty] = (len(ca), canon(strip(tr.operand(ca[0][1]["args"][3]))) if ca else None,
-                   "VariableMap::nested(cast(&**arg:ctx.locals))" in (canon(tr.operand(ca[0][1]["args"][1])) if ca else ""))
-    rep.check(len(set(seq.values())) == 1 and list(seq.values())[0] == (1, "false", True) if seq else False, "C06.Q", "iteration forms agree", "",
+                   "VariableMap::nested(cast(&**arg:ctx.locals))" in (canon(tr.operand(ca[0][1]["args"][1])) if ca else ""), vfacts_ok)
+    rep.check(len(set(seq.values())) == 1 and list(seq.values())[0] == (1, "false", True, True) if seq else False, "C06.Q", "iteration forms agree", "",
               "for / list- / set-comprehension: variable bound immutably in a context nested in the enclosing one", "the three iteration forms check their variable differently: %s" % seq)
     fl = [f for f in chk if f.self_path == "tsg::ast::Condition" and f.name == "check"]
     if len(fl) == 1:
@@ -392,6 +397,12 @@ def run(prog, rep):
         rep.check(ok, "C06.B", "%s :: variable and body share one scope" % f.id, f.loc(), "variable bound and body/element checked in the same nested scope",
                   "the loop variable is bound at scope depth %s but the body is checked at depth %s: a redefinition of the loop variable is no longer an error"
                   % ([depth(c) for c in var_ctx], [depth(c) for c in inner]))
+    # ---- N: every scan arm's regex is tested for nullability (C10's rule: the test sits on every round of the arm loop)
+    from . import C10
+    from ..lib.report import Filtered
+    nb_ = len(rep.items)
+    C10.run(prog, Filtered(rep, lambda rule, key: rule == "C10.null"))
+    rep.floor("C10.null", len(rep.items) - nb_, 1, "nullable-regex test of scan arms")
     # the context handed from stanza to stanza is read-only: no memo/cache can carry facts of one stanza into the check of another
     from ..lib import typewalk
     rep.rule("C06.C", "tsg::checker::CheckContext holds no interior mutability (every stanza is checked against the file, never against what earlier stanzas left behind)")
